@@ -2,6 +2,7 @@ package sim
 
 import (
 	"fmt"
+	"sync/atomic"
 	"hash/fnv"
 	"reflect"
 	"sort"
@@ -75,11 +76,29 @@ type stepClock struct {
 	rp       int
 	log      *Fingerprint
 	exSite   int32 // site at which the budget was exceeded
+	blocked     bool
+	blockedSite int32
 }
 
 var clock stepClock
 
+// progressBeat is bumped by every engine while it makes progress (scheduler decisions, evaluations);
+// the worker's real-time monitor only declares a hang when it stops moving.
+var progressBeat atomic.Int64
+
 type budgetSentinel struct{}
+
+// blockedSentinel is thrown by the VfBlocked hook of the single-task engines: a cooperative try-lock
+// failed, and with a single task nobody else can ever release that lock.
+type blockedSentinel struct{ site int32 }
+
+func singleTaskBlocked() {
+	// the verdict is taken from the flag, not from catching the sentinel: a library that recovers
+	// panics at its entry points turns the sentinel into an ordinary error
+	clock.blocked = true
+	clock.blockedSite = callerSite()
+	panic(blockedSentinel{clock.blockedSite})
+}
 
 //go:norace
 func clockStep(site int32) {
@@ -94,8 +113,10 @@ func clockStep(site int32) {
 }
 
 func resetClock(budget uint64) {
+	progressBeat.Add(1)
 	clock = stepClock{budget: budget}
 	hessian.VfStep = clockStep
+	hessian.VfBlocked = singleTaskBlocked
 }
 
 // leafFuncs are the library's thin write helpers; the "site of a write" is the most recent step
